@@ -41,10 +41,10 @@ def InCl (o : St N) (z0 : Fin N) (qt0 : Nat → Nat) (b : Fin N) (x : Fin N × N
 theorem union_one {o : St N} {z0 : Fin N} {qt0 : Nat → Nat} (h0 : LInv o z0 qt0) {i : Fin N}
     (hi : IsStart o i) {t : St N} {U : Finset (Fin N × Nat)} (hr : Rep t U) :
     ∃ t1, insertInternal t i (o.get i).rem = some (t1, (specStep U (i, (o.get i).rem)).2) ∧
-      ((specStep U (i, (o.get i).rem)).2 = .full ∨
+      (((specStep U (i, (o.get i).rem)).2 = .full ∧ FullWit o z0 qt0 U) ∨
        ((specStep U (i, (o.get i).rem)).2 ≠ .full ∧
         ∃ t' res, unionCluster o i (N + 1) (incr i) i [] t1 = some (t', res) ∧
-          (res = .full ∨ (res = .ok true ∧ ∃ U', Rep t' U' ∧
+          ((res = .full ∧ FullWit o z0 qt0 U) ∨ (res = .ok true ∧ ∃ U', Rep t' U' ∧
             ∀ x, x ∈ U' ↔ (x ∈ U ∨ InCl o z0 qt0 i x))))) := by
   obtain ⟨m, hm, rfl⟩ := exists_pos z0 i
   have hs : (o.at z0 m).shift = false := hi.2
@@ -54,8 +54,12 @@ theorem union_one {o : St N} {z0 : Fin N} {qt0 : Nat → Nat} (h0 : LInv o z0 qt
   have hq0 : rebQt N m qt0 0 = 0 := hb.qt_zero hN (LInv.used_of_occ hocc0)
   obtain ⟨t1, h1, h2⟩ := rep_insert hr (pos z0 m, (o.get (pos z0 m)).rem)
   refine ⟨t1, h1, ?_⟩
+  have habs0 : Abs o z0 qt0 (pos z0 m) (o.get (pos z0 m)).rem := by
+    rw [← h0.rebase_abs hm hs]
+    exact ⟨0, hN, LInv.used_of_occ hocc0, by rw [hq0]; simp, by simp [St.at]⟩
   by_cases hfull : (specStep U (pos z0 m, (o.get (pos z0 m)).rem)).2 = .full
-  · exact Or.inl hfull
+  · have hf := (specStep_full_iff _ _).mp hfull
+    exact Or.inl ⟨hfull, U, _, fun y hy => Or.inl hy, hf.2, hf.1, habs0⟩
   · refine Or.inr ⟨hfull, ?_⟩
     have hQ : QOk o (pos z0 m) (rebQt N m qt0 0) 0 [] := by
       refine ⟨List.Pairwise.nil, fun a => ?_⟩
@@ -68,8 +72,13 @@ theorem union_one {o : St N} {z0 : Fin N} {qt0 : Nat → Nat} (h0 : LInv o z0 qt
     have hi1 : incr (pos z0 m) = pos (pos z0 m) (0 + 1) := by
       have := incr_pos (pos z0 m) 0; simpa using this
     refine ⟨t', res, by rw [hi1]; exact c1, ?_⟩
-    rcases c2 with c2 | ⟨c2, len, U', d1, d2, d3, d4, d5, d6⟩
-    · exact Or.inl c2
+    rcases c2 with ⟨c2, W, x, w1, w2, w3, w4⟩ | ⟨c2, len, U', d1, d2, d3, d4, d5, d6⟩
+    · refine Or.inl ⟨c2, W, x, fun y hy => ?_, w2, w3, (h0.rebase_abs hm hs _ _).mp w4⟩
+      rcases w1 y hy with hy | hy
+      · rcases (specStep_mem_notfull _ _ _ hfull).mp hy with hy | rfl
+        · exact Or.inl hy
+        · exact Or.inr habs0
+      · exact Or.inr ((h0.rebase_abs hm hs _ _).mp hy)
     · refine Or.inr ⟨c2, U', d5, ?_⟩
       have hpair0 : (pos z0 m, (o.get (pos z0 m)).rem) = pairAt o (pos z0 m) (rebQt N m qt0) 0 := by
         simp [pairAt, hq0, St.at]
